@@ -1049,12 +1049,13 @@ class Gridder(GeospatialGrid):
 
             segment_distances_repeated = np.repeat(segment_distances, count_subsegments)
 
-            # A zero-length segment (repeated point) consists of a single
-            # piece, which gets all of the segment's integrated values.
+            # A zero-length segment (a repeated point, or two points on a
+            # pole) has no length to share out: its pieces get equal shares
+            # of the segment's integrated values.
             subsegment_distance_fractions = np.divide(
                 subsegment_distances,
                 segment_distances_repeated,
-                out=np.ones_like(subsegment_distances),
+                out=1.0 / np.repeat(count_subsegments, count_subsegments),
                 where=segment_distances_repeated != 0,
             )
 
